@@ -64,6 +64,11 @@ Proof.
   rewrite alist_get_set_other by apply Hname. rewrite E. exact H.
 Qed.
 
+Lemma G_merged ts a b : G {| t := ts; p := Candle.merge NO a b |}.
+Proof. reflexivity. Qed.
+Lemma G_relabel ts (c : cd) : G c -> G {| t := ts; p := p c |}.
+Proof. intros H. exact H. Qed.
+
 (* Managed.set_reading of the helper: one write into its slot of the candle *)
 Lemma managed_set_mid f (a rest : store) (c : cd) w :
   managed_set NO (run NO (S f)) I key w (zlen a) (a ++ c :: rest) = Ok (a ++ setkM c w :: rest).
